@@ -273,7 +273,7 @@ func substitute(full rt.Tmpl, params map[string]string) string {
 // c04: path parameters are exactly the URL text they stand for.
 func c04(ctx *core.Ctx) {
 	quietLogs()
-	ctx.Rule("every invocation observed while sending template-derived requests (values with '.', ':', '%', unicode, spaces, 80 chars; root variables combined with route variables; regex, suffix, verb, tail wildcard) to seeded tables under both routers, via Dispatch and ServeHTTP. Oracle: bound names == declared variables; each value == reference binding; substitution reproduces the path up to the trailing slash. Non-trivial = an invocation of a route with >= 1 variable; distinct by (router, template kind-shape, trailing slash).")
+	ctx.Rule("every invocation observed while sending template-derived requests (values with '.', ':', '%', unicode, spaces, 80 chars; root variables combined with route variables; regex, suffix, verb, tail wildcard) to seeded tables under both routers, via Dispatch and ServeHTTP. Oracle: bound names == declared variables; each value == reference binding; substitution reproduces the path up to the trailing slash (the substitution law and the declared names also for hit paths with one empty segment inserted, '/a//b'). Non-trivial = an invocation of a route with >= 1 variable; distinct by (router, template kind-shape, trailing slash).")
 	ctx.Assume("RouterJSR311 keeps a trailing slash inside a tail-wildcard value: compared modulo that slash (DESIGN §4.3)")
 	tables := ctx.N(5000, 400000)
 	perTable := ctx.N(40, 50)
@@ -316,6 +316,21 @@ func c04(ctx *core.Ctx) {
 			ctx.Eval(1)
 			judgeC04(ctx, ti, t, router, entry, &req, out)
 			reqs = append(reqs, req)
+			if toks, _ := rt.Tokens(req.Path); len(out.Obs.Invokes) > 0 && len(toks) >= 2 && qi%3 == 1 {
+				// the same path with one empty segment inside ("/a//b"): whatever route the framework runs for it,
+				// the values it binds put back into that route's template give the path that was requested
+				k := rr.Range(1, len(toks)-1)
+				req2 := req
+				req2.Path = "/" + strings.Join(toks[:k], "/") + "//" + strings.Join(toks[k:], "/")
+				if strings.HasSuffix(req.Path, "/") {
+					req2.Path += "/"
+				}
+				req2.RawPath, req2.Class = "", "inner-empty-segment"
+				out2 := rt.Run(c, rt.Dispatch, &req2)
+				ctx.Eval(1)
+				ctx.Count("requests_with_an_empty_inner_segment", 1)
+				judgeC04(ctx, ti, t, router, rt.Dispatch, &req2, out2)
+			}
 		}
 		if ti%3 == 0 {
 			// the same bindings while 8 goroutines share the container (parameters belong to their own request)
@@ -340,6 +355,24 @@ func judgeC04(ctx *core.Ctx, ti int, t *rt.Table, router, entry string, reqp *rt
 					continue
 				}
 				full := rt.Full(s, rs)
+				if req.Class == "inner-empty-segment" {
+					// the reference matcher is silent on empty segments; the substitution law and the declared names are not
+					ctx.Count("invocations_on_paths_with_an_empty_inner_segment", 1)
+					doc := caseDoc{Router: router, Entry: entry, Table: t, Req: req, Obs: out}
+					declared := map[string]bool{}
+					for _, n := range full.VarNames() {
+						declared[n] = true
+					}
+					for name := range iv.Params {
+						if !declared[name] {
+							ctx.Violation(ti, "c04:extra-name:"+router, fmt.Sprintf("parameter %q is bound but not declared by %s", name, full), doc)
+						}
+					}
+					if sub := substitute(full, iv.Params); strings.TrimSuffix(sub, "/") != strings.TrimSuffix(req.Path, "/") {
+						ctx.Violation(ti, "c04:roundtrip-empty-segment:"+router+":"+full.KindShape(), fmt.Sprintf("substituting %v into %s gives %q, request path is %q", iv.Params, full, sub, req.Path), doc)
+					}
+					continue
+				}
 				tri, binds := rt.MatchFull(full, tokens)
 				if tri != rt.Yes && full.HasKind(rt.VarPre) {
 					// the route function DID run on a prefix{v} template: then the value is the text behind the prefix
